@@ -108,7 +108,17 @@ Definition idle_with (p : tlocal) (ops : list fop) (H : list Z) (rs : list fres)
 
 Definition op_nochain (o : fop) : bool := match o with FreeChain => false | _ => true end.
 
-Ltac stp := cbn [iter tstep fst snd pc todo held res dead lost mk mkh finish normalize enter_loop after_push].
+Lemma iter_S k mp : iter (S k) mp = iter k (tstep (fst mp) (snd mp)).
+Proof. reflexivity. Qed.
+Lemma iter_0 mp : iter 0 mp = mp.
+Proof. reflexivity. Qed.
+
+(* one step at a time: never let cbn unfold the whole iteration (the stuck conditionals of one step
+   would be duplicated into every branch of the next) *)
+Ltac stp := rewrite ?iter_0; try rewrite iter_S;
+  cbn [tstep fst snd pc todo held res dead lost mk mkh finish normalize enter_loop after_push
+       m_size m_head m_tail m_counter m_cpb m_n m_base m_len s_cap s_size s_start s_next s_flag
+       set_size set_head set_tail set_counter set_ssize set_sstart set_snext set_sflag].
 
 (* ---- alloc ---- *)
 Lemma alloc_fail m p L H r rs :
@@ -119,7 +129,7 @@ Proof.
   pose proof (r_size _ _ _ R) as Hs.
   assert (Hle : (m_size m - 1 <=? 0) = true) by (apply Z.leb_le; lia).
   eexists; eexists. split.
-  - stp. cbn [iter]. stp. rewrite Hle. stp. reflexivity.
+  - stp. stp. rewrite Hle. stp. stp. reflexivity.
   - split; [|split].
     + destruct R; constructor; simpl; auto; try lia.
       eapply linked_ext; [|eassumption]. intros; split; reflexivity.
@@ -127,47 +137,4 @@ Proof.
     + repeat split; reflexivity.
 Qed.
 
-From Coq Require Import Permutation.
 
-Ltac stm := cbn [iter tstep fst snd pc todo held res dead lost mk mkh finish normalize enter_loop after_push
-                 m_size m_head m_tail m_counter m_cpb m_n m_base m_len s_cap s_size s_start s_next s_flag
-                 set_size set_head set_tail set_counter set_ssize set_sstart set_snext set_sflag stride valid_off].
-
-Lemma last_cons2 (a b : Z) r d : last (a :: b :: r) d = last (b :: r) d.
-Proof. reflexivity. Qed.
-
-Lemma alloc_ok m p a b L' H r rs :
-  Rep m (a :: b :: L') H -> idle_with p (Alloc :: r) H rs ->
-  exists m' p', iter 13 (m, p) = (m', p') /\ Rep m' (b :: L') (H ++ [a]) /\ geom m m' /\
-                idle_with p' r (H ++ [a]) (rs ++ [RAlloc (Some a)]).
-Proof.
-  intros R [Hpc [Htd [Hh [Hr Hd]]]]. destruct p as [pc0 td hd0 rs0 dd ls]; simpl in *; subst.
-  pose proof (r_size _ _ _ R) as Hs. pose proof (r_head _ _ _ R) as Hhd. simpl in Hhd.
-  pose proof (r_link _ _ _ R) as Hl. simpl in Hl. destruct Hl as [Hfa [Hna Hl']].
-  destruct (r_valid _ _ _ R a (or_introl eq_refl)) as [Hva Hba].
-  assert (Hgt : (m_size m - 1 <=? 0) = false) by (apply Z.leb_gt; simpl in Hs; lia).
-  assert (Hbd : (a + stride m <=? m_n m * stride m) = true) by (apply Z.leb_le; lia).
-  unfold stride in Hbd. unfold valid_off, stride in Hva.
-  eexists; eexists. split.
-  - stm. rewrite Hgt, retry_pos, Hhd. stm. rewrite Hva. stm. rewrite Hfa. stm. rewrite Hhd, Z.eqb_refl. stm.
-    rewrite Hbd. stm. reflexivity.
-  - split; [|split].
-    + constructor; stm.
-      * discriminate.
-      * pose proof (r_nd _ _ _ R) as Hnd. simpl in Hnd.
-        eapply Permutation_NoDup; [|exact Hnd].
-        change (a :: b :: L' ++ H) with (a :: ((b :: L') ++ H)).
-        rewrite (Permutation_cons_append ((b :: L') ++ H) a). rewrite <- app_assoc. apply Permutation_refl.
-      * intros o Ho. apply (r_valid _ _ _ R). simpl in *. rewrite in_app_iff in *. simpl in Ho.
-        destruct Ho as [Ho|Ho]; [right; left; auto|].
-        destruct Ho as [Ho|Ho]; [right; right; apply in_or_app; left; auto|].
-        apply in_app_or in Ho. destruct Ho as [Ho|[Ho|[]]]; [right; right; apply in_or_app; right; auto | left; auto].
-      * rewrite Hna. reflexivity.
-      * rewrite (r_tail _ _ _ R). reflexivity.
-      * simpl in Hs. simpl. lia.
-      * eapply linked_ext; [|exact Hl']. intros o Ho. split; [|reflexivity].
-        rewrite !fupd_other; auto; intros ->; pose proof (r_nd _ _ _ R) as Hnd; simpl in Hnd; inversion Hnd as [|? ? Hni _]; subst;
-          apply Hni; simpl in Ho; simpl; destruct Ho as [->|Ho]; [left; auto | right; apply in_or_app; left; auto].
-    + repeat split; reflexivity.
-    + rewrite Hna. repeat split; reflexivity.
-Qed.
